@@ -11,6 +11,7 @@ import (
 	"net/http"
 	"net/http/httptest"
 	"strings"
+	"unicode/utf16"
 
 	"github.com/DemoHn/Zn/pkg/server"
 	"github.com/DemoHn/Zn/znverif/hlib"
@@ -424,11 +425,37 @@ func c10PanicSite(w *zsim.World) string {
 
 func c10Loading(t *zsim.Tape, w *zsim.World, d *zsim.Disk, sc *c10Scenario, out *hlib.Outcome, fail func(string, string) *hlib.Outcome) *hlib.Outcome {
 	sc.Files = map[string]string{
-		"/proj/main.zn":    "导入“工具”\n导入“子-深”\n\n（显示：（帮手））\n（显示：（深处））\n输出“done”\n",
-		"/proj/工具.zn":     "如何帮手？\n\t输出“帮”\n",
-		"/proj/子/深.zn":    "如何深处？\n\t输出“深”\n",
+		"/proj/main.zn": "导入“工具”\n导入“子-深”\n\n（显示：（帮手））\n（显示：（深处））\n输出“done”\n",
+		"/proj/工具.zn":   "如何帮手？\n\t输出“帮”\n",
+		"/proj/子/深.zn":  "如何深处？\n\t输出“深”\n",
 	}
-	switch t.Draw(5) {
+	foreign := false
+	switch t.Draw(8) {
+	case 5, 6, 7:
+		// a file saved in another encoding with its own byte-order mark (UTF-16 LE/BE, UTF-32 LE):
+		// the module, or the main file itself
+		victim := []string{"/proj/工具.zn", "/proj/main.zn", "/proj/子/深.zn"}[t.Draw(3)]
+		text := sc.Files[victim]
+		var enc []byte
+		switch t.Draw(3) {
+		case 0:
+			enc = []byte{0xFF, 0xFE}
+			for _, u := range utf16.Encode([]rune(text)) {
+				enc = append(enc, byte(u), byte(u>>8))
+			}
+		case 1:
+			enc = []byte{0xFE, 0xFF}
+			for _, u := range utf16.Encode([]rune(text)) {
+				enc = append(enc, byte(u>>8), byte(u))
+			}
+		case 2:
+			enc = []byte{0xFF, 0xFE, 0x00, 0x00}
+			for _, r := range text {
+				enc = append(enc, byte(r), byte(r>>8), byte(r>>16), 0)
+			}
+		}
+		sc.Files[victim] = string(enc)
+		foreign = true
 	case 1:
 		delete(sc.Files, "/proj/工具.zn")
 	case 2:
@@ -480,7 +507,7 @@ func c10Loading(t *zsim.Tape, w *zsim.World, d *zsim.Disk, sc *c10Scenario, out 
 			faulted = true
 		}
 	}
-	pristine := !degenerate && len(sc.Files) == 3 && sc.Files["/proj/工具.zn"] == "如何帮手？\n\t输出“帮”\n" && sc.Files["/proj/子/深.zn"] != ""
+	pristine := !degenerate && !foreign && len(sc.Files) == 3 && sc.Files["/proj/工具.zn"] == "如何帮手？\n\t输出“帮”\n" && sc.Files["/proj/子/深.zn"] != ""
 	if !faulted && pristine {
 		if res.Err != "" || strings.Join(res.Display, ",") != "帮,深" || res.Result != "*value.String:done" {
 			return fail("loading:wrong-outcome", "fault-free load of a correct project gave "+res.String())
